@@ -138,8 +138,9 @@ def tracked_add_rules(ctx, R2="C15.R2", R3="C15.R3") -> None:
                      [e for e in p.effects if isinstance(e, ast.Expr) and "self.tracked." in u(e)]
             if taken and taken[0]:
                 seen_int = True
-                okp = len(stores) == 1 and (tmatch(stores[0], T(f"self.tracked[{wv}] = {nodevar}.out({pv})")) is not None
-                                            or tmatch(stores[0], T(f"self.tracked[{wv}] = {nodevar}[{pv}]")) is not None)
+                # (not `node[pv]`: Node.__getitem__ checks the offset against the node's known output count and raises IndexError for an
+                #  argument position beyond it -- And(0, 1) has one output --, where explicit wiring never asks for that port)
+                okp = len(stores) == 1 and tmatch(stores[0], T(f"self.tracked[{wv}] = {nodevar}.out({pv})")) is not None
                 if not okp:
                     good, why = False, "on the path for an int argument: " + " | ".join(u(e) for e in stores)
             else:
@@ -251,6 +252,11 @@ def tracked_index_rules(ctx) -> None:
               found="; ".join(p.describe() + " :: " + " | ".join(p.effect_texts()) for p in ps)[:300])
     need(ctx, R, f"{TD}.track_wires", "TrackedDfg.track_wires", ["return [self.track_wire(c0) for c0 in L_wires]"])
     need(ctx, R, f"{TD}.track_inputs", "TrackedDfg.track_inputs", ["return self.track_wires(self.inputs())"])
+    # commands given in one batch are applied one after the other: each one's indices are resolved against the table the previous
+    # commands left (whichever class of the hierarchy provides `extend`)
+    need(ctx, "C15.R3", f"{TD}.extend", "TrackedDfg.extend: one add per command, in order", ["return [self.add(c0) for c0 in L_coms]"],
+         "extend(c1, c2, ..) must be add(c1); add(c2); ..: resolving the indices of later commands before the earlier ones were added feeds "
+         "them from stale wires", supers=True)
 
 
 # ---------------------------------------------------------------------------------------
